@@ -28,3 +28,8 @@ claim("C15", "exploration",
       "ItemAlloc/ItemAddRef/ItemDecRef wired to a mutex-protected online monitor following the documented protocol: never below zero, positive when handed out, positive while reachable from an open handle (hook walk after every step), zero for every item after the store, its snapshots and abandoned stores are closed in seed-chosen orders. Outstanding references are attributed to the API operation that acquired them, which makes distinct leaks distinguishable.",
       "Trusted: the monitor's protocol model (alloc=1, app drops its ref after SetItem, releases lookups once). One recorded known finding (loads through a superseded version).",
       "runtime monitoring: online reference-count monitor in the store callbacks + end-of-life conservation check", "5/C15")
+
+claim("C07", "fault_enumeration",
+      "Two-pass fault enumeration: pass 1 records every StoreFile call of every operation of a seeded history; pass 2 re-executes the history once per fault point (every call k of every operation, plus every destination-file call of CopyTo), failing exactly that call outright, short (reads) or torn after j bytes (writes; incl. the full-length-but-error case), and then checks error return, no panic, logical termination bound, structural reachability (stale reclaim marks), the file image re-opening to the last durable state, and the behaviour of the remaining history plus a fixed epilogue (mutations, retried Flush, re-open) against the model in which the failed call had no effect. Enumerating single fault points is the natural level: the property quantifies over 'every individual call'.",
+      "Trusted: the fault-injecting StoreFile, the reference model, the decoder-free reopen comparison. One fault per execution. Calls of byte-by-byte backward scans beyond the first/last 12 are sampled (24 evenly spread). EvictSomeItems/Exist have no error result (Exist's wrong answer is a recorded known finding).",
+      "runtime monitoring: single-fault enumeration over recorded StoreFile calls + differential check after the fault clears", "5/C07")
